@@ -109,7 +109,8 @@ func genSurface() {
 							for _, el := range v.Elts {
 								if kv, ok := el.(*ast.KeyValueExpr); ok {
 									if k, ok := kv.Key.(*ast.Ident); ok {
-										fields = append(fields, k.Name)
+										// field and the expression it is initialised with
+										fields = append(fields, k.Name+"="+clean(exprText(rel, kv.Value)))
 									}
 								}
 							}
